@@ -25,6 +25,10 @@ fn decode_bytes(s: &str) -> Option<Vec<u8>> {
   d.read_to_end(&mut out).ok()?;
   Some(out)
 }
+/// the list's bytes read entry by entry (no codec involved)
+fn bytes_of_raw(l: &StatusList2021) -> Vec<u8> { (0..l.len() / 8).map(|j| (0..8).fold(0u8, |a, b| a | ((l.get(j * 8 + b).unwrap_or(false) as u8) << (7 - b)))).collect() }
+fn gz_of(bytes: &[u8]) -> Vec<u8> { let mut c = GzEncoder::new(vec![], Compression::best()); c.write_all(bytes).unwrap(); c.finish().unwrap() }
+fn gunzip_of(z: &[u8]) -> Option<Vec<u8>> { let mut d = GzDecoder::new(z); let mut out = vec![]; d.read_to_end(&mut out).ok()?; Some(out) }
 fn bytes_of(l: &StatusList2021) -> Vec<u8> { decode_bytes(&l.clone().into_encoded_str()).unwrap() }
 fn sparse(bytes: &[u8], obs: &mut Vec<i64>) {
   let nz: Vec<(usize, u8)> = bytes.iter().cloned().enumerate().filter(|(_, b)| *b != 0).collect();
@@ -229,6 +233,29 @@ pub fn exec(case: &[i64]) -> Outcome {
       }
       o
     }
+    // 6: the text of an encoded list: [6, <LP gzip bytes as the harness's own GzEncoder gives them>, n, k, (index).. k times] -> the text into_encoded_str returns
+    //    (the model Base64-encodes the recorded gzip bytes: standard alphabet, no padding)
+    6 => {
+      let mut v = v;
+      let gz = take_bytes(&mut v).unwrap(); let n = take1(&mut v).unwrap() as usize; let k = take1(&mut v).unwrap();
+      let mut l = match StatusList2021::new(n) { Ok(l) => l, Err(_) => return Outcome::new(vec![-7]).class("encode-new-err").trivial() };
+      for _ in 0..k { let i = take1(&mut v).unwrap() as usize; let _ = l.set(i, true); }
+      let text = l.clone().into_encoded_str();
+      let mut obs = vec![]; put_bytes(&mut obs, text.as_bytes());
+      let mut o = Outcome::new(obs).class("encoded-text");
+      if BaseEncoding::decode(&text, Base::Base64).ok().as_deref() != Some(&gz[..]) { o = o.fail("the encoded text is not the Base64 (standard alphabet, no padding) of the gzip stream of the list"); }
+      if !matches!(StatusList2021::try_from_encoded_str(&text), Ok(ref d) if *d == l) { o = o.fail("the encoded form does not decode to the identical list"); }
+      o
+    }
+    // 7: a text handed to try_from_encoded_str: [7, <LP text>, inflates, <LP inflated bytes>] -> 0 len first-bytes.. | 1
+    7 => {
+      let mut v = v;
+      let text = String::from_utf8_lossy(&take_bytes(&mut v).unwrap()).to_string();
+      match StatusList2021::try_from_encoded_str(&text) {
+        Ok(l) => { let b = bytes_of_raw(&l); let mut obs = vec![0, b.len() as i64]; obs.extend(b.iter().take(16).map(|x| *x as i64)); Outcome::new(obs).class("text-decoded") }
+        Err(_) => Outcome::new(vec![1]).class("text-rejected"),
+      }
+    }
     _ => Outcome::new(vec![-998]).fail("bad case kind"),
   }
 }
@@ -246,6 +273,18 @@ pub fn gen(rng: &mut Rng, thorough: bool, sink: &mut Sink) {
   for n in [0i64, 1, 131071, 131072, 131073, 131079, 131080, 131081, 1 << 20, (1 << 20) + 1, (1 << 20) + 9, 1 << 21, 3_000_001, (8 << 20) - 8, 8 << 20, (8 << 20) + 1, (8 << 20) + 9, 10_000_001, 1 << 24] { sink.case(vec![2, n, 1, n - 1, 1, n, 1, n + 7, 1, n + 8, 0, n - 1, 1, 0, n + 8, 1], "sizes"); }
   // (c') dense lists of several sizes (long compressed streams)
   for (n, a, b) in [(131072i64, 2654435761i64, 12345i64), (600_000, 2654435761, 7), (1 << 20, 40503, 99), (1_048_583, 2246822519, 3), (3_000_001, 2654435761, 1)] { sink.case(vec![5, n, a, b], "dense-list"); }
+  // (c'') the encoded text (kind 6) and texts handed to the decoder (kind 7): Base64 is the model's, gzip is recorded
+  for (n, idxs) in [(131072usize, vec![]), (131072, vec![0]), (131072, vec![7, 8, 131071]), (131073, vec![1, 2, 3, 131079]), (200000, vec![5, 77777, 199999]), (131072, (0..400).map(|i| (i * 331) % 131072).collect::<Vec<usize>>())] {
+    let mut l = StatusList2021::new(n).unwrap(); for i in &idxs { let _ = l.set(*i, true); }
+    let gz = gz_of(&bytes_of_raw(&l)); let mut c = vec![6]; put_bytes(&mut c, &gz); c.push(n as i64); c.push(idxs.len() as i64); c.extend(idxs.iter().map(|i| *i as i64)); sink.case(c, "encoded-text");
+    let text = BaseEncoding::encode(&gz[..], Base::Base64);
+    let mut variants: Vec<String> = vec![text.clone(), format!("{text}="), format!("{text}=="), text[..text.len() - 1].to_string(), text[..text.len() - 2].to_string(), text.replace('+', "-").replace('/', "_"), format!(" {text}"), format!("{text}\n"), text.to_lowercase(), String::new(), "A".into(), "AA".into(), "AAA".into(), "AAAA".into(), "!!!!".into(), "H4sI".into()];
+    { let mut b = text.clone().into_bytes(); let last = b.len() - 1; b[last] = if b[last] == b'A' { b'B' } else { b'A' }; variants.push(String::from_utf8(b).unwrap()); }
+    for t in variants { let z = BaseEncoding::decode(&t, Base::Base64).ok(); let inflated = z.as_deref().and_then(gunzip_of);
+      // the model gets: the text, and for the bytes ITS Base64 decoder should produce, what gzip makes of them (recorded for the harness's own decoding; a disagreement about the bytes shows as a difference)
+      let mut c = vec![7]; put_bytes(&mut c, t.as_bytes()); match (&z, &inflated) { (Some(zb), Some(inf)) => { c.push(1); put_bytes(&mut c, zb); put_bytes(&mut c, inf); } (Some(zb), None) => { c.push(2); put_bytes(&mut c, zb); put_bytes(&mut c, &[]); } _ => { c.push(0); put_bytes(&mut c, &[]); put_bytes(&mut c, &[]); } }
+      sink.case(c, "text-to-decode"); }
+  }
   // (d) write sequences clustered inside bytes and at both ends
   let nseq = if thorough { 6000 } else { 600 };
   for k in 0..nseq {
